@@ -269,13 +269,13 @@ def gen_cases(ctx):
             al = [a, b, c]
         cases.append(cm_case("repeated-name-upa-valid", p, G.exhaustive(al, 7 if thorough else 6, 1100 if not thorough else 4000), rng))
     # ---- 2. random deterministic particles: exhaustive short child sequences + boundary samples --------------
-    nrand = 110 if not thorough else 2500
+    nrand = 110 if not thorough else 2000
     for i in range(nrand):
         p = G.random_particle(rng)
         al, foreign = G.alphabet_for(p, rng)
         alphabet = (al + foreign)[:5]
         L = {1: 6, 2: 5, 3: 4, 4: 3, 5: 3}[max(1, len(alphabet))]
-        cap = 130 if not thorough else 600
+        cap = 130 if not thorough else 400
         words = G.exhaustive(alphabet, L + (1 if thorough else 0), cap)
         pool = [(3, 6), (4, 8), (1, 8), (2, 5), (3, 7)]
         seen = {tuple(w) for w in words}
@@ -293,7 +293,7 @@ def gen_cases(ctx):
                              mixed=rng.random() < 0.15))
     # ---- 3. all-groups --------------------------------------------------------------------------------------
     members_pool = [a, b, c, (1, 1)]
-    nall = 24 if not thorough else 200
+    nall = 24 if not thorough else 120
     for i in range(nall):
         k = rng.randrange(1, 5)
         ms = [(q, rng.random() < 0.5) for q in members_pool[:k]]
@@ -344,7 +344,7 @@ def gen_cases(ctx):
     import itertools
     aw = [None, (("set", [4, 3]), "urn:v urn:u", "strict"), (("not", 2), "##other", "skip"), (("set", [1]), "##local", "lax"), (("any",), "##any", "skip"),
           (("set", [3]), "urn:u", "strict"), (("set", [4, 1]), "urn:v ##local", "skip")]
-    natt = 36 if not thorough else 400
+    natt = 36 if not thorough else 150
     for i in range(natt):
         uses = []
         for q in [(1, 1), (1, 2), (1, 3), (3, 9)]:
